@@ -10,11 +10,17 @@
         → ok <dst hex>      listing cryptoBlockAsm / X2 / X4 / X8 / X16Internal; `inplace`: dst = src;
                             n = 16: `tmp` = `dst`, as the Go wrapper cryptoBlockAsmX16 passes it
     asm64.expandkey <key>   → ok <enc words> <dec words>        listing expandKeyAsm
+    asm64.ghash <H> <tag> <data>   → ok <tag>     listing gHashBlocks of gcm_arm64.s, count = |data|/16 (same answer
+                                                  format as `asm.ghash`)
+    asm64.xor <n> <a> <b> [dst1|dst2]   n ∈ {16,32,64,128,256}, a and b = n bytes
+        → ok <dst hex>      listing xor<n>(dst, a, b); `dst1`: dst is the buffer of a (xorN(x, x, b)), `dst2`: dst is
+                            the buffer of b (xorN(x, a, x)); otherwise a separate buffer
   Every failure of the interpreter (unknown mnemonic, operand shape, arrangement, access outside a region) is
   answered `error <message>`.
 -/
 import Driver.Asm
 import SMGo.Model.ISAValArm64Inst
+import SMGo.Model.ISAValArm64Gcm
 open SMGo
 open SMGo.Model.ISAValArm64
 
@@ -51,8 +57,39 @@ def expandKey (key : List Nat) : Except String String := do
   let d ← region s' "dec"
   pure (showN (wordsToMem e) ++ " " ++ showN (wordsToMem d))
 
+def ghash (h tag data : List Nat) : Except String String := do
+  if h.length ≠ 16 ∨ tag.length ≠ 16 then .error "H and tag must be 16 bytes" else
+  let n := data.length / 16
+  let t ← runGhash (ghFuel n) (ghashState junkG junkV h tag data n)
+  pure (showN t)
+
+def xorN (n : Nat) (a b : List Nat) (mode : Nat) : Except String String := do
+  let (l, ar) ← match xorListing n with
+    | some la => pure la
+    | none => .error "no such routine"
+  if a.length ≠ n ∨ b.length ≠ n then .error "a and b must be n bytes" else
+  let s := match mode with
+    | 1 => xorStateDst1 junkG junkV a b
+    | 2 => xorStateDst2 junkG junkV a b
+    | _ => xorState junkG junkV (List.replicate n 0xEE) a b
+  let d ← runDst l ar s
+  pure (showN d)
+
 def handle (toks : List String) : Option String :=
   match toks with
+  | ["asm64.ghash", h, tag, data] =>
+    match parseBytes h, parseBytes tag, parseBytes data with
+    | some h, some tag, some data => some (answer (ghash (toNats h) (toNats tag) (toNats data)))
+    | _, _, _ => some "bad-op"
+  | "asm64.xor" :: n :: a :: b :: rest =>
+    match n.toNat?, parseBytes a, parseBytes b with
+    | some n, some a, some b =>
+      match rest with
+      | [] => some (answer (xorN n (toNats a) (toNats b) 0))
+      | ["dst1"] => some (answer (xorN n (toNats a) (toNats b) 1))
+      | ["dst2"] => some (answer (xorN n (toNats a) (toNats b) 2))
+      | _ => some "bad-op"
+    | _, _, _ => some "bad-op"
   | "asm64.kernel" :: n :: rk :: blocks :: rest =>
     match n.toNat?, parseBytes rk, parseBytes blocks with
     | some n, some rk, some blocks =>
